@@ -764,16 +764,26 @@ func E6ScannerSites(c *core.Ctx, r *core.Report) {
 			}
 			return nil, nil
 		}
-		if mul, ok := core.Unparen(inner.Args[0]).(*ast.BinaryExpr); ok && mul.Op == token.MUL && isDpmm(mul.Y) {
-			xi, xp = coord(mul.X)
-			okX = xi != nil || xp != nil
+		// the product of the resolution and a coordinate, in either operand order
+		scaled := func(e ast.Expr) (*ast.IndexExpr, *ast.SelectorExpr) {
+			mul, ok := core.Unparen(e).(*ast.BinaryExpr)
+			if !ok || mul.Op != token.MUL {
+				return nil, nil
+			}
+			switch {
+			case isDpmm(mul.Y):
+				return coord(mul.X)
+			case isDpmm(mul.X):
+				return coord(mul.Y)
+			}
+			return nil, nil
 		}
+		xi, xp = scaled(inner.Args[0])
+		okX = xi != nil || xp != nil
 		if sub, ok := core.Unparen(inner.Args[1]).(*ast.BinaryExpr); ok && sub.Op == token.SUB {
 			if id, ok := core.Unparen(sub.X).(*ast.Ident); ok && core.ObjOf(info, id) == dyObj {
-				if mul, ok := core.Unparen(sub.Y).(*ast.BinaryExpr); ok && mul.Op == token.MUL && isDpmm(mul.Y) {
-					yi, yp = coord(mul.X)
-					okY = yi != nil || yp != nil
-				}
+				yi, yp = scaled(sub.Y)
+				okY = yi != nil || yp != nil
 			}
 		}
 		consecutive := false
